@@ -35,6 +35,8 @@ Extra == <<
   [n |-> "x- keys in free-form mappings", top |-> FALSE, p |-> <<"environment">>, v |-> Sq2(S("x-trace=1"), S("A=2"))],
   [n |-> "x- label", top |-> FALSE, p |-> <<"labels">>, v |-> Sq1(S("x-team=core"))],
   [n |-> "x- network of a service", top |-> TRUE, p |-> <<"networks", "x-net">>, v |-> M1("driver", S("bridge"))],
+  [n |-> "published port range", top |-> FALSE, p |-> <<"ports">>, v |-> Sq1(S("8080-8090:80"))],
+  [n |-> "byte size beyond 2^53", top |-> FALSE, p |-> <<"mem_limit">>, v |-> S("@int:9007199254740993")],   \* (the harness writes it as a bare integer: beyond what TLC holds)
   [n |-> "mem_swappiness", top |-> FALSE, p |-> <<"mem_swappiness">>, v |-> I(60)],
   [n |-> "zero stop_grace_period", top |-> FALSE, p |-> <<"stop_grace_period">>, v |-> S("0s")],
   [n |-> "zero healthcheck durations", top |-> FALSE, p |-> <<"healthcheck">>, v |-> M([k \in {"test", "interval", "timeout", "start_period", "start_interval"} |-> IF k = "test" THEN Sq2(S("CMD"), S("true")) ELSE S("0s")])],
